@@ -108,7 +108,7 @@ func tyChar(t int) string {
 }
 
 func (c *tyCase) ntName(i int) string   { return fmt.Sprintf("n%d", i) }
-func (c *tyCase) typeName(i int) string { return fmt.Sprintf("%s%d", map[string]string{"leaf": "Leaf", "struct": "Struct", "iface": "Cat"}[c.Nts[i].Kind], i) }
+func (c *tyCase) typeName(i int) string { return fmt.Sprintf("%s%d", map[string]string{"leaf": "Leaf", "struct": "Struct", "iface": "Cat", "cyc": "Struct"}[c.Nts[i].Kind], i) }
 
 func (c *tyCase) render(ntok int) string {
 	var b strings.Builder
@@ -125,7 +125,7 @@ func (c *tyCase) render(ntok int) string {
 	b.WriteString("\nroot -> Root:\n    top+ ;\n\n%interface Top;\n\ntop -> Top:\n")
 	first := true
 	for i, nt := range c.Nts {
-		if nt.Kind == "struct" {
+		if nt.Kind == "struct" || nt.Kind == "cyc" {
 			sep := "  | "
 			if first {
 				sep = "    "
@@ -156,6 +156,17 @@ func (c *tyCase) render(ntok int) string {
 				}
 			}
 			b.WriteString(";\n\n")
+		case "cyc":
+			// a cycle through nonterminals that produce no nodes themselves; each member reports an inline node
+			m := len(nt.Alts)
+			name := func(k int) string { return fmt.Sprintf("%s_%d", c.ntName(i), k) }
+			node := func(k int) string { return fmt.Sprintf("(%s -> Cy%d_%d)", tyTok(nt.Alts[k]), i, k) }
+			fmt.Fprintf(&b, "%s -> %s:\n    %s %s %s ;\n\n", c.ntName(i), c.typeName(i), tyTok(nt.Tok), name(0), tyTok(nt.End))
+			fmt.Fprintf(&b, "%s:\n    %s %s\n  | %s\n;\n\n", name(0), name(1), node(0), node(0))
+			for k := 1; k < m-1; k++ {
+				fmt.Fprintf(&b, "%s:\n    %s %s\n;\n\n", name(k), name(k+1), node(k))
+			}
+			fmt.Fprintf(&b, "%s:\n    %s %s\n  | %s\n;\n\n", name(m-1), name(0), node(m-1), node(m-1))
 		case "struct":
 			fmt.Fprintf(&b, "%s -> %s:\n    %s", c.ntName(i), c.typeName(i), tyTok(nt.Tok))
 			for _, p := range nt.Parts {
@@ -206,6 +217,28 @@ func (c *tyCase) sample(r *rand.Rand, i, depth int, out *[]int) {
 			return
 		}
 		c.sample(r, nt.Alts[r.Intn(len(nt.Alts))], depth-1, out)
+	case "cyc":
+		// member 0: member1 t0 | t0 ; member k: member(k+1) tk ; last: member0 t(m-1) | t(m-1)
+		*out = append(*out, nt.Tok)
+		m := len(nt.Alts)
+		var member func(k, d int)
+		member = func(k, d int) {
+			switch {
+			case k == 0:
+				if d > 0 && r.Intn(3) > 0 {
+					member(1, d)
+				}
+			case k == m-1:
+				if d > 0 && r.Intn(3) > 0 {
+					member(0, d-1)
+				}
+			default:
+				member(k+1, d)
+			}
+			*out = append(*out, nt.Alts[k])
+		}
+		member(0, 3)
+		*out = append(*out, nt.End)
 	case "struct":
 		*out = append(*out, nt.Tok)
 		for _, p := range nt.Parts {
@@ -455,6 +488,37 @@ func c21Gen(args []string) error {
 		fields := []string{"a", "b", "c", "d", "e"}
 		for i := 0; i < nstruct; i++ {
 			nt := tyNonterm{Kind: "struct", Tok: tok()}
+			if r.Intn(6) == 0 { // a cycle of 3-4 nonterminals without nodes of their own
+				nt.Kind = "cyc"
+				for k := 0; k < 3+r.Intn(2); k++ {
+					nt.Alts = append(nt.Alts, tok())
+				}
+				nt.End = tok()
+				c.Nts = append(c.Nts, nt)
+				continue
+			}
+			if r.Intn(4) == 0 { // groups of same-typed fields, the last field of a group may be optional
+				fi := 0
+				for gidx := 0; gidx < 1+r.Intn(2); gidx++ {
+					target := r.Intn(nleaf)
+					cnt := 2 + r.Intn(2)
+					for k := 0; k < cnt; k++ {
+						p := tyPart{K: "ref", NT: target, Field: fields[fi%len(fields)] + strconv.Itoa(fi/len(fields))}
+						fi++
+						if k == cnt-1 && r.Intn(2) == 0 {
+							p.K = "opt"
+						}
+						nt.Parts = append(nt.Parts, p)
+						if r.Intn(2) == 0 {
+							nt.Parts = append(nt.Parts, tyPart{K: "tok", Tok: tok()})
+						}
+					}
+					nt.Parts = append(nt.Parts, tyPart{K: "tok", Tok: tok()})
+				}
+				nt.End = tok()
+				c.Nts = append(c.Nts, nt)
+				continue
+			}
 			np := 1 + r.Intn(4)
 			fi := 0
 			for k := 0; k < np; k++ {
@@ -503,7 +567,7 @@ func c21Gen(args []string) error {
 		c.TM = c.render(ntok)
 		var structs []int
 		for i, nt := range c.Nts {
-			if nt.Kind == "struct" {
+			if nt.Kind == "struct" || nt.Kind == "cyc" {
 				structs = append(structs, i)
 			}
 		}
